@@ -664,7 +664,7 @@ func (s *Sim) advanceUntilEvent(limit time.Duration) bool {
 		total += d
 		synctest.Wait()
 		s.mu.Lock()
-		n := len(s.parked)
+		n := len(s.enabledLocked()) // frozen (killed) tasks do not count
 		s.mu.Unlock()
 		if n > 0 {
 			s.mu.Lock()
